@@ -14,8 +14,8 @@ pub const T_DISCRETE: u8 = 1;
 pub const T_HOLDING: u8 = 2;
 pub const T_INPUT: u8 = 3;
 /// reading this holding / input register takes as long as the harness keeps the gate closed (at least 400 ms, real
-/// time, when the gate is open; at most 6 s): "the session is busy inside a slow handler" does not depend on how
-/// fast the harness itself gets to run
+/// time, when the gate is open; at most 45 s): "the session is busy inside a slow handler" does not depend on how
+/// fast the harness itself gets to run (the upper bound only keeps a broken harness from hanging)
 pub const SLOW_REGISTER: u16 = 9999;
 
 pub struct Gate {
@@ -37,7 +37,7 @@ impl Gate {
         let t0 = std::time::Instant::now();
         let mut g = self.closed.lock().unwrap_or_else(|e| e.into_inner());
         let mut waited = false;
-        while *g && t0.elapsed() < std::time::Duration::from_secs(6) {
+        while *g && t0.elapsed() < std::time::Duration::from_secs(45) {
             waited = true;
             let (g2, _) = self.cv.wait_timeout(g, std::time::Duration::from_millis(50)).unwrap_or_else(|e| e.into_inner());
             g = g2;
